@@ -24,3 +24,4 @@ CHECKS["X10"] = checks_extra.check_refine
 CHECKS["X11"] = checks_extra.check_refine
 CHECKS["X03"] = checks_extra.check_zwindow
 CHECKS["X04"] = checks_extra.check_findall
+CHECKS["X05"] = checks_extra.check_klatt_open
